@@ -205,6 +205,23 @@ func genVest(g *Gen, n int) {
 			pools = append(pools, gPool{va, "ok", now + 3600*sec, extra, vts[0]})
 			g.emit("v.q.pools %s", va)
 			g.count("shape/vesting-owner-above-spendable")
+		case 2:
+			// a vesting type whose lockup + vesting exceeds what one time.Duration holds (each is valid
+			// on its own), used by restarting and non-restarting sends
+			g.emit("v.vt vtlong %d %d %s", 73000*86400*sec, 73000*86400*sec, genFree(g))
+			o := vaddr(8)
+			owners = append(owners, o)
+			g.emit("v.fund %s [%s=%s]", o, den, "1000000000000000000000000000")
+			amt := g.logBig(8 + g.intn(12))
+			g.emit("v.createPool %s long %s %d vtlong", atok(o), amt, g.pickI(sec, 3600*sec))
+			pools = append(pools, gPool{o, "long", now + 3600*sec, amt, "vtlong"})
+			for i := 0; i < 2; i++ {
+				fresh++
+				g.emit("v.send %s %s long %s %d", atok(o), atok(vaddr(fresh)), g.pick("1", "1000", new(big.Int).Div(amt, big.NewInt(3)).String()), 1-i)
+				g.emit("v.q.locked %s", vaddr(fresh))
+				cvas = append(cvas, vaddr(fresh))
+			}
+			g.count("shape/long-vesting-type")
 		}
 		nops := 6 + g.intn(20)
 		for i := 0; i < nops; i++ {
